@@ -1,62 +1,1304 @@
+// obs-logcodec drives the real log codec of the working tree: logs of every kind are built with the real
+// constructors, chained with the real Log.ChainLog, marshalled with encoding/json, stored the way
+// ledgerstore.InsertLogs fills the columns of the logs table (type name, json.Marshal(Data) through RawMessage
+// into a jsonb column, Time.Value, BigInt.Value), read back through json.Unmarshal(ChainedLog) and through
+// Logs.ToCore (HydrateLog), and re-chained. The C13 oracle is applied to what comes back; every entry is also
+// written as a Coq case for LogCodec/Model.v (to_json, of_json, of_row, hash input bytes).
 package main
 
 import (
+	"bytes"
+	"crypto/sha256"
+	"encoding/base64"
 	"encoding/json"
 	"fmt"
+	"io"
 	"math/big"
+	"regexp"
+	"sort"
+	"strings"
+	"time"
 
 	ledger "github.com/formancehq/ledger/internal"
 	"github.com/formancehq/ledger/internal/storage/ledgerstore"
+	"github.com/formancehq/ledger/verifx/vx"
+	"github.com/formancehq/stack/libs/go-libs/bun/bunpaginate"
 	"github.com/formancehq/stack/libs/go-libs/metadata"
 )
 
-func try(name string, f func()) {
+// ---- inputs (JSON, replayable) ------------------------------------------------------------------------------
+
+type postingSpec struct {
+	Source      string `json:"source"`
+	Destination string `json:"destination"`
+	Amount      string `json:"amount"` // decimal
+	Asset       string `json:"asset"`
+}
+
+type txSpec struct {
+	Postings  []postingSpec     `json:"postings"`
+	Metadata  map[string]string `json:"metadata"`  // null = nil map
+	Timestamp string            `json:"timestamp"` // as sent to the API; goes through ledger.ParseTime
+	Reference string            `json:"reference"`
+	ID        string            `json:"id"`
+	Reverted  bool              `json:"reverted"`
+}
+
+type logSpec struct {
+	Kind       string                       `json:"kind"`   // NEW | REV | SET | DEL
+	Target     string                       `json:"target"` // ACCOUNT | TRANSACTION (SET, DEL)
+	Account    string                       `json:"account"`
+	TxID       string                       `json:"txId"`
+	Metadata   map[string]string            `json:"metadata"`
+	AccountMD  map[string]map[string]string `json:"accountMetadata"`
+	Key        string                       `json:"key"`
+	RevertedID string                       `json:"revertedId"`
+	Tx         *txSpec                      `json:"tx"`
+	Date       string                       `json:"date"` // the commander dates logs with Now(): UTC, microseconds
+	IK         string                       `json:"ik"`
+}
+
+type input struct {
+	Logs []logSpec `json:"logs"`
+}
+
+func bigOf(s string) *big.Int {
+	z, ok := new(big.Int).SetString(s, 10)
+	if !ok {
+		return big.NewInt(0)
+	}
+	return z
+}
+
+// ---- building the real logs ----------------------------------------------------------------------------------
+
+type rejected struct{ why string }
+
+func buildTx(s *txSpec) (*ledger.Transaction, *rejected) {
+	ts, err := ledger.ParseTime(s.Timestamp)
+	if err != nil {
+		return nil, &rejected{"timestamp"}
+	}
+	ps := make([]ledger.Posting, 0, len(s.Postings))
+	for _, p := range s.Postings {
+		ps = append(ps, ledger.NewPosting(p.Source, p.Destination, p.Asset, bigOf(p.Amount)))
+	}
+	// as commander.exec assembles it
+	tx := ledger.NewTransaction().
+		WithPostings(ps...).
+		WithMetadata(metadata.Metadata(s.Metadata)).
+		WithDate(ts).
+		WithID(bigOf(s.ID)).
+		WithReference(s.Reference)
+	tx.Reverted = s.Reverted
+	return tx, nil
+}
+
+func buildLog(s logSpec) (*ledger.Log, *rejected) {
+	at, err := ledger.ParseTime(s.Date)
+	if err != nil {
+		return nil, &rejected{"date"}
+	}
+	at = at.UTC()
+	var l *ledger.Log
+	switch s.Kind {
+	case "NEW":
+		tx, rej := buildTx(s.Tx)
+		if rej != nil {
+			return nil, rej
+		}
+		var am map[string]metadata.Metadata
+		if s.AccountMD != nil {
+			am = map[string]metadata.Metadata{}
+			for k, v := range s.AccountMD {
+				am[k] = metadata.Metadata(v)
+			}
+		}
+		l = ledger.NewTransactionLogWithDate(tx, am, at)
+	case "REV":
+		tx, rej := buildTx(s.Tx)
+		if rej != nil {
+			return nil, rej
+		}
+		l = ledger.NewRevertedTransactionLog(at, bigOf(s.RevertedID), tx)
+	case "SET":
+		if s.Target == "TRANSACTION" {
+			l = ledger.NewSetMetadataLog(at, ledger.SetMetadataLogPayload{TargetType: ledger.MetaTargetTypeTransaction, TargetID: bigOf(s.TxID), Metadata: metadata.Metadata(s.Metadata)})
+		} else {
+			l = ledger.NewSetMetadataLog(at, ledger.SetMetadataLogPayload{TargetType: ledger.MetaTargetTypeAccount, TargetID: s.Account, Metadata: metadata.Metadata(s.Metadata)})
+		}
+	case "DEL":
+		if s.Target == "TRANSACTION" {
+			l = ledger.NewDeleteMetadataLog(at, ledger.DeleteMetadataLogPayload{TargetType: ledger.MetaTargetTypeTransaction, TargetID: bigOf(s.TxID), Key: s.Key})
+		} else {
+			l = ledger.NewDeleteMetadataLog(at, ledger.DeleteMetadataLogPayload{TargetType: ledger.MetaTargetTypeAccount, TargetID: s.Account, Key: s.Key})
+		}
+	default:
+		return nil, &rejected{"kind"}
+	}
+	if s.IK != "" {
+		l = l.WithIdempotencyKey(s.IK)
+	}
+	return l, nil
+}
+
+// ---- ordered JSON values ---------------------------------------------------------------------------------------
+
+type jv struct {
+	k    byte // n(ull) b(ool) i(nteger) l(iteral number) s(tring) a(rray) o(bject)
+	b    bool
+	s    string
+	arr  []jv
+	keys []string
+	vals []jv
+}
+
+var intRe = regexp.MustCompile(`^-?(0|[1-9][0-9]*)$`)
+
+func parseJSON(data []byte) (jv, error) {
+	dec := json.NewDecoder(bytes.NewReader(data))
+	dec.UseNumber()
+	v, err := parseValue(dec)
+	if err != nil {
+		return jv{}, err
+	}
+	if _, err := dec.Token(); err != io.EOF {
+		return jv{}, fmt.Errorf("trailing data")
+	}
+	return v, nil
+}
+
+func parseValue(dec *json.Decoder) (jv, error) {
+	tok, err := dec.Token()
+	if err != nil {
+		return jv{}, err
+	}
+	switch t := tok.(type) {
+	case nil:
+		return jv{k: 'n'}, nil
+	case bool:
+		return jv{k: 'b', b: t}, nil
+	case json.Number:
+		if intRe.MatchString(string(t)) {
+			return jv{k: 'i', s: string(t)}, nil
+		}
+		return jv{k: 'l', s: string(t)}, nil
+	case string:
+		return jv{k: 's', s: t}, nil
+	case json.Delim:
+		if t == '[' {
+			out := jv{k: 'a'}
+			for dec.More() {
+				x, err := parseValue(dec)
+				if err != nil {
+					return jv{}, err
+				}
+				out.arr = append(out.arr, x)
+			}
+			_, err := dec.Token()
+			return out, err
+		}
+		if t == '{' {
+			out := jv{k: 'o'}
+			for dec.More() {
+				kt, err := dec.Token()
+				if err != nil {
+					return jv{}, err
+				}
+				ks, ok := kt.(string)
+				if !ok {
+					return jv{}, fmt.Errorf("object key is not a string")
+				}
+				x, err := parseValue(dec)
+				if err != nil {
+					return jv{}, err
+				}
+				out.keys = append(out.keys, ks)
+				out.vals = append(out.vals, x)
+			}
+			_, err := dec.Token()
+			return out, err
+		}
+	}
+	return jv{}, fmt.Errorf("unexpected token %v", tok)
+}
+
+// jsonb: object members without duplicates (last wins), ordered by key length then bytes
+func jsonbNorm(v jv) jv {
+	switch v.k {
+	case 'a':
+		out := jv{k: 'a'}
+		for _, x := range v.arr {
+			out.arr = append(out.arr, jsonbNorm(x))
+		}
+		return out
+	case 'o':
+		last := map[string]int{}
+		for i, k := range v.keys {
+			last[k] = i
+		}
+		keys := make([]string, 0, len(last))
+		for k := range last {
+			keys = append(keys, k)
+		}
+		sort.Slice(keys, func(i, j int) bool {
+			if len(keys[i]) != len(keys[j]) {
+				return len(keys[i]) < len(keys[j])
+			}
+			return keys[i] < keys[j]
+		})
+		out := jv{k: 'o'}
+		for _, k := range keys {
+			out.keys = append(out.keys, k)
+			out.vals = append(out.vals, jsonbNorm(v.vals[last[k]]))
+		}
+		return out
+	}
+	return v
+}
+
+// text as PostgreSQL prints a jsonb value (", " and ": " separators)
+func (v jv) text(b *strings.Builder) {
+	switch v.k {
+	case 'n':
+		b.WriteString("null")
+	case 'b':
+		if v.b {
+			b.WriteString("true")
+		} else {
+			b.WriteString("false")
+		}
+	case 'i', 'l':
+		b.WriteString(v.s)
+	case 's':
+		js, _ := json.Marshal(v.s)
+		b.Write(js)
+	case 'a':
+		b.WriteString("[")
+		for i, x := range v.arr {
+			if i > 0 {
+				b.WriteString(", ")
+			}
+			x.text(b)
+		}
+		b.WriteString("]")
+	case 'o':
+		b.WriteString("{")
+		for i, k := range v.keys {
+			if i > 0 {
+				b.WriteString(", ")
+			}
+			js, _ := json.Marshal(k)
+			b.Write(js)
+			b.WriteString(": ")
+			v.vals[i].text(b)
+		}
+		b.WriteString("}")
+	}
+}
+
+func (v jv) coq(b *strings.Builder) {
+	switch v.k {
+	case 'n':
+		b.WriteString("JNull")
+	case 'b':
+		b.WriteString("JBool " + vx.CoqBool(v.b))
+	case 'i':
+		b.WriteString("JNum " + vx.CoqZ(v.s))
+	case 'l':
+		b.WriteString("JLit " + coqStr(v.s))
+	case 's':
+		b.WriteString("JStr " + coqStr(v.s))
+	case 'a':
+		b.WriteString("JArr [")
+		for i, x := range v.arr {
+			if i > 0 {
+				b.WriteString("; ")
+			}
+			x.coq(b)
+		}
+		b.WriteString("]")
+	case 'o':
+		b.WriteString("JObj [")
+		for i, k := range v.keys {
+			if i > 0 {
+				b.WriteString("; ")
+			}
+			b.WriteString("(" + coqStr(k) + ", ")
+			v.vals[i].coq(b)
+			b.WriteString(")")
+		}
+		b.WriteString("]")
+	}
+}
+
+func (v jv) coqString() string {
+	var b strings.Builder
+	v.coq(&b)
+	return b.String()
+}
+
+// a Coq string term for arbitrary bytes: printable ASCII in literals, everything else byte by byte
+func coqStr(s string) string {
+	plain := true
+	for i := 0; i < len(s); i++ {
+		if s[i] < 0x20 || s[i] >= 0x7f {
+			plain = false
+			break
+		}
+	}
+	if plain {
+		return "\"" + strings.ReplaceAll(s, "\"", "\"\"") + "\"%string"
+	}
+	var parts []string
+	i := 0
+	for i < len(s) {
+		j := i
+		for j < len(s) && s[j] >= 0x20 && s[j] < 0x7f {
+			j++
+		}
+		if j > i {
+			parts = append(parts, "\""+strings.ReplaceAll(s[i:j], "\"", "\"\"")+"\"%string")
+			i = j
+			continue
+		}
+		for j < len(s) && (s[j] < 0x20 || s[j] >= 0x7f) {
+			j++
+		}
+		var nums []string
+		for _, c := range []byte(s[i:j]) {
+			nums = append(nums, fmt.Sprintf("%d", c))
+		}
+		parts = append(parts, "bytes_to_string ["+strings.Join(nums, ";")+"]")
+		i = j
+	}
+	out := parts[len(parts)-1]
+	for k := len(parts) - 2; k >= 0; k-- {
+		out = "append (" + parts[k] + ") (" + out + ")"
+	}
+	return "(" + out + ")"
+}
+
+// ---- canonical rendering of a Go ChainedLog as a model entry ---------------------------------------------------
+
+type unrepresentable struct{ what string }
+
+func timeText(t ledger.Time) string { return t.Format(ledger.DateFormat) }
+
+func coqMeta(m metadata.Metadata) string {
+	if m == nil {
+		return "None"
+	}
+	var xs []string
+	for _, k := range vx.SortedKeys(m) {
+		xs = append(xs, "("+coqStr(k)+", "+coqStr(m[k])+")")
+	}
+	return "(Some " + vx.CoqList(xs) + ")"
+}
+
+func coqAMeta(m ledger.AccountMetadata) string {
+	if m == nil {
+		return "None"
+	}
+	var xs []string
+	for _, k := range vx.SortedKeys(m) {
+		xs = append(xs, "("+coqStr(k)+", "+coqMeta(m[k])+")")
+	}
+	return "(Some " + vx.CoqList(xs) + ")"
+}
+
+func coqTx(tx *ledger.Transaction) string {
+	if tx == nil {
+		panic(unrepresentable{"nil transaction"})
+	}
+	if tx.ID == nil {
+		panic(unrepresentable{"nil transaction id"})
+	}
+	var ps []string
+	for _, p := range tx.Postings {
+		if p.Amount == nil {
+			panic(unrepresentable{"nil amount"})
+		}
+		ps = append(ps, fmt.Sprintf("{| p_src := %s; p_dst := %s; p_amount := %s; p_asset := %s |}", coqStr(p.Source), coqStr(p.Destination), vx.CoqZ(p.Amount.String()), coqStr(p.Asset)))
+	}
+	return fmt.Sprintf("(mk_tx %s %s %s %s %s %s)",
+		vx.CoqList(ps), coqMeta(tx.Metadata), coqStr(timeText(tx.Timestamp)), coqStr(tx.Reference), vx.CoqZ(tx.ID.String()), vx.CoqBool(tx.Reverted))
+}
+
+func coqTarget(tt string, id any) string {
+	switch tt {
+	case ledger.MetaTargetTypeAccount:
+		s, ok := id.(string)
+		if !ok {
+			panic(unrepresentable{fmt.Sprintf("account target id of type %T", id)})
+		}
+		return "(TAccount " + coqStr(s) + ")"
+	case ledger.MetaTargetTypeTransaction:
+		switch v := id.(type) {
+		case *big.Int:
+			if v == nil {
+				panic(unrepresentable{"nil transaction target id"})
+			}
+			return "(TTx " + vx.CoqZ(v.String()) + ")"
+		case uint64:
+			return "(TTx " + vx.CoqZ(new(big.Int).SetUint64(v).String()) + ")"
+		}
+		panic(unrepresentable{fmt.Sprintf("transaction target id of type %T", id)})
+	}
+	panic(unrepresentable{"target type " + tt})
+}
+
+func coqPayload(l *ledger.ChainedLog) string {
+	switch p := l.Data.(type) {
+	case ledger.NewTransactionLogPayload:
+		if l.Type != ledger.NewTransactionLogType {
+			panic(unrepresentable{"type/payload mismatch"})
+		}
+		return "PNewTx tc " + coqTx(p.Transaction) + " " + coqAMeta(p.AccountMetadata)
+	case ledger.RevertedTransactionLogPayload:
+		if l.Type != ledger.RevertedTransactionLogType {
+			panic(unrepresentable{"type/payload mismatch"})
+		}
+		if p.RevertedTransactionID == nil {
+			panic(unrepresentable{"nil reverted id"})
+		}
+		return "PReverted tc " + vx.CoqZ(p.RevertedTransactionID.String()) + " " + coqTx(p.RevertTransaction)
+	case ledger.SetMetadataLogPayload:
+		if l.Type != ledger.SetMetadataLogType {
+			panic(unrepresentable{"type/payload mismatch"})
+		}
+		return "PSetMeta tc " + coqTarget(p.TargetType, p.TargetID) + " " + coqMeta(p.Metadata)
+	case ledger.DeleteMetadataLogPayload:
+		if l.Type != ledger.DeleteMetadataLogType {
+			panic(unrepresentable{"type/payload mismatch"})
+		}
+		return "PDelMeta tc " + coqTarget(p.TargetType, p.TargetID) + " " + coqStr(p.Key)
+	}
+	panic(unrepresentable{fmt.Sprintf("payload of type %T", l.Data)})
+}
+
+func coqEntry(l *ledger.ChainedLog) (s string, unrep string) {
 	defer func() {
 		if r := recover(); r != nil {
-			fmt.Println(name, "PANIC:", r)
+			if u, ok := r.(unrepresentable); ok {
+				s, unrep = "", u.what
+				return
+			}
+			panic(r)
 		}
 	}()
-	f()
+	if l.ID == nil {
+		panic(unrepresentable{"nil id"})
+	}
+	h := "None"
+	if l.Hash != nil {
+		h = "(Some " + coqStr(base64.StdEncoding.EncodeToString(l.Hash)) + ")"
+	}
+	return fmt.Sprintf("(mk_entry (%s) %s %s %s %s)",
+		coqPayload(l), coqStr(timeText(l.Date)), coqStr(l.IdempotencyKey), vx.CoqZ(l.ID.String()), h), ""
+}
+
+// ---- read-back outcomes ------------------------------------------------------------------------------------------
+
+type outcome struct {
+	kind  string // ok | err | panic
+	entry *ledger.ChainedLog
+	msg   string
+}
+
+func (o outcome) coq() string {
+	switch o.kind {
+	case "ok":
+		s, unrep := coqEntry(o.entry)
+		if unrep != "" {
+			return "Err (* decoded value outside the model: " + strings.ReplaceAll(unrep, "*", "") + " *)"
+		}
+		return "Ok " + s
+	case "err":
+		return "Err"
+	}
+	return "Panic"
+}
+
+func readJSON(js []byte) (o outcome) {
+	defer func() {
+		if r := recover(); r != nil {
+			o = outcome{kind: "panic", msg: fmt.Sprint(r)}
+		}
+	}()
+	var rt ledger.ChainedLog
+	if err := json.Unmarshal(js, &rt); err != nil {
+		return outcome{kind: "err", msg: err.Error()}
+	}
+	return outcome{kind: "ok", entry: &rt}
+}
+
+// the logs table row as InsertLogs fills it and PostgreSQL returns it
+func storeRow(c *ledger.ChainedLog) (row *ledgerstore.Logs, dataBack jv, err error) {
+	data, err := json.Marshal(c.Data) // InsertLogs
+	if err != nil {
+		return nil, jv{}, err
+	}
+	dv, err := ledgerstore.RawMessage(data).Value() // the data argument of the COPY statement
+	if err != nil {
+		return nil, jv{}, err
+	}
+	parsed, err := parseJSON([]byte(dv.(string)))
+	if err != nil {
+		return nil, jv{}, err
+	}
+	dataBack = jsonbNorm(parsed)
+	var tb strings.Builder
+	dataBack.text(&tb)
+
+	idv, err := (*bunpaginate.BigInt)(c.ID).Value()
+	if err != nil {
+		return nil, jv{}, err
+	}
+	id := bunpaginate.NewInt()
+	if err := id.Scan(idv); err != nil {
+		return nil, jv{}, err
+	}
+
+	datev, err := c.Date.Value()
+	if err != nil {
+		return nil, jv{}, err
+	}
+	// column "date timestamp": the zone designator of the text is ignored, microseconds are kept; the driver
+	// hands the wall clock back as a time.Time
+	wall, err := time.Parse(time.RFC3339Nano, datev.(string))
+	if err != nil {
+		return nil, jv{}, err
+	}
+	y, mo, d := wall.Date()
+	hh, mi, ss := wall.Clock()
+	back := time.Date(y, mo, d, hh, mi, ss, wall.Nanosecond()/1000*1000, time.FixedZone("", 0))
+	var date ledger.Time
+	if err := date.Scan(back); err != nil {
+		return nil, jv{}, err
+	}
+	var hash []byte
+	if c.Hash != nil {
+		hash = append([]byte{}, c.Hash...)
+	}
+	return &ledgerstore.Logs{
+		ID:             id,
+		Type:           c.Type.String(),
+		Hash:           hash,
+		Date:           date,
+		Data:           []byte(tb.String()),
+		IdempotencyKey: c.IdempotencyKey,
+	}, dataBack, nil
+}
+
+func readRow(row *ledgerstore.Logs) (o outcome) {
+	defer func() {
+		if r := recover(); r != nil {
+			o = outcome{kind: "panic", msg: fmt.Sprint(r)}
+		}
+	}()
+	return outcome{kind: "ok", entry: row.ToCore()}
+}
+
+// ---- comparisons ------------------------------------------------------------------------------------------------
+
+func sameTime(a, b ledger.Time) bool {
+	_, oa := a.Zone()
+	_, ob := b.Zone()
+	return a.Equal(b) && oa == ob && timeText(a) == timeText(b)
+}
+
+func sameMeta(a, b metadata.Metadata) bool {
+	if (a == nil) != (b == nil) || len(a) != len(b) {
+		return false
+	}
+	for k, v := range a {
+		if w, ok := b[k]; !ok || w != v {
+			return false
+		}
+	}
+	return true
+}
+
+func sameTx(a, b *ledger.Transaction) string {
+	if a == nil || b == nil {
+		if a == b {
+			return ""
+		}
+		return "transaction nil"
+	}
+	if len(a.Postings) != len(b.Postings) || (a.Postings == nil) != (b.Postings == nil) {
+		return "postings length"
+	}
+	for i := range a.Postings {
+		p, q := a.Postings[i], b.Postings[i]
+		if p.Source != q.Source || p.Destination != q.Destination || p.Asset != q.Asset {
+			return "posting account/asset"
+		}
+		if p.Amount == nil || q.Amount == nil || p.Amount.Cmp(q.Amount) != 0 {
+			return "posting amount"
+		}
+	}
+	if !sameMeta(a.Metadata, b.Metadata) {
+		return "transaction metadata"
+	}
+	if !sameTime(a.Timestamp, b.Timestamp) {
+		return "transaction timestamp"
+	}
+	if a.Reference != b.Reference {
+		return "reference"
+	}
+	if a.ID == nil || b.ID == nil || a.ID.Cmp(b.ID) != 0 {
+		return "transaction id"
+	}
+	if a.Reverted != b.Reverted {
+		return "reverted flag"
+	}
+	return ""
+}
+
+func idValue(v any) (kind string, z *big.Int, s string) {
+	switch x := v.(type) {
+	case string:
+		return "string", nil, x
+	case *big.Int:
+		if x == nil {
+			return "nil", nil, ""
+		}
+		return "int", x, ""
+	case uint64:
+		return "int", new(big.Int).SetUint64(x), ""
+	}
+	return fmt.Sprintf("%T", v), nil, ""
+}
+
+func sameTarget(ta string, ia any, tb string, ib any) string {
+	if ta != tb {
+		return "target type"
+	}
+	ka, za, sa := idValue(ia)
+	kb, zb, sb := idValue(ib)
+	if ka != kb {
+		return "target id type (" + ka + " became " + kb + ")"
+	}
+	if ka == "int" && za.Cmp(zb) != 0 || ka == "string" && sa != sb {
+		return "target id"
+	}
+	if ka != "int" && ka != "string" {
+		return "target id type " + ka
+	}
+	return ""
+}
+
+// "" when b is a (the log read back unchanged), else which part differs
+func sameEntry(a, b *ledger.ChainedLog) string {
+	if a.Type != b.Type {
+		return "type"
+	}
+	if !sameTime(a.Date, b.Date) {
+		return "date"
+	}
+	if a.IdempotencyKey != b.IdempotencyKey {
+		return "idempotency key"
+	}
+	if a.ID == nil || b.ID == nil || a.ID.Cmp(b.ID) != 0 {
+		return "id"
+	}
+	if !bytes.Equal(a.Hash, b.Hash) || (a.Hash == nil) != (b.Hash == nil) {
+		return "hash"
+	}
+	switch p := a.Data.(type) {
+	case ledger.NewTransactionLogPayload:
+		q, ok := b.Data.(ledger.NewTransactionLogPayload)
+		if !ok {
+			return fmt.Sprintf("payload type %T", b.Data)
+		}
+		if d := sameTx(p.Transaction, q.Transaction); d != "" {
+			return d
+		}
+		if (p.AccountMetadata == nil) != (q.AccountMetadata == nil) || len(p.AccountMetadata) != len(q.AccountMetadata) {
+			return "account metadata"
+		}
+		for k, v := range p.AccountMetadata {
+			if w, ok := q.AccountMetadata[k]; !ok || !sameMeta(v, w) {
+				return "account metadata"
+			}
+		}
+	case ledger.RevertedTransactionLogPayload:
+		q, ok := b.Data.(ledger.RevertedTransactionLogPayload)
+		if !ok {
+			return fmt.Sprintf("payload type %T", b.Data)
+		}
+		if p.RevertedTransactionID == nil || q.RevertedTransactionID == nil || p.RevertedTransactionID.Cmp(q.RevertedTransactionID) != 0 {
+			return "reverted transaction id"
+		}
+		if d := sameTx(p.RevertTransaction, q.RevertTransaction); d != "" {
+			return d
+		}
+	case ledger.SetMetadataLogPayload:
+		q, ok := b.Data.(ledger.SetMetadataLogPayload)
+		if !ok {
+			return fmt.Sprintf("payload type %T", b.Data)
+		}
+		if d := sameTarget(p.TargetType, p.TargetID, q.TargetType, q.TargetID); d != "" {
+			return d
+		}
+		if !sameMeta(p.Metadata, q.Metadata) {
+			return "metadata"
+		}
+	case ledger.DeleteMetadataLogPayload:
+		q, ok := b.Data.(ledger.DeleteMetadataLogPayload)
+		if !ok {
+			return fmt.Sprintf("payload type %T", b.Data)
+		}
+		if d := sameTarget(p.TargetType, p.TargetID, q.TargetType, q.TargetID); d != "" {
+			return d
+		}
+		if p.Key != q.Key {
+			return "key"
+		}
+	default:
+		return fmt.Sprintf("payload type %T", a.Data)
+	}
+	return ""
+}
+
+// the bytes ComputeHash must have fed to SHA-256: previous.Hash, then the entry with id 0 and hash null
+func hashInput(prev, c *ledger.ChainedLog) ([]byte, error) {
+	var buf bytes.Buffer
+	enc := json.NewEncoder(&buf)
+	if prev != nil {
+		if err := enc.Encode(prev.Hash); err != nil {
+			return nil, err
+		}
+	}
+	cp := *c
+	cp.ID = big.NewInt(0)
+	cp.Hash = nil
+	if err := enc.Encode(&cp); err != nil {
+		return nil, err
+	}
+	return buf.Bytes(), nil
+}
+
+func rechain(prev *ledger.ChainedLog, l ledger.Log) (c *ledger.ChainedLog, p string) {
+	defer func() {
+		if r := recover(); r != nil {
+			p = fmt.Sprint(r)
+		}
+	}()
+	return l.ChainLog(prev), ""
+}
+
+// ---- one chain ---------------------------------------------------------------------------------------------------
+
+type failure struct {
+	sig    string
+	detail string
+	at     int
+}
+
+func cls(s logSpec) string {
+	if s.Kind == "SET" || s.Kind == "DEL" {
+		return s.Kind + ":" + s.Target
+	}
+	return s.Kind
+}
+
+func panicClass(msg string) string {
+	switch {
+	case strings.Contains(msg, "unknown type"):
+		return "unknown-type"
+	case strings.Contains(msg, "hydrating log data"):
+		return "hydrate-error"
+	}
+	return "other"
+}
+
+func errClass(msg string) string {
+	switch {
+	case strings.Contains(msg, "ParseUint"):
+		return "parse-uint"
+	case strings.Contains(msg, "parsing time"):
+		return "parse-time"
+	}
+	return "other"
+}
+
+func inputSize(in input) int {
+	js, _ := json.Marshal(in)
+	return len(in.Logs)*100000 + len(js)
+}
+
+// runs the chain on the real code; returns oracle failures, Coq cases (one per entry), and whether it was rejected
+func runChain(in input) (fails []failure, cases []string, rej string, stats map[string]int) {
+	stats = map[string]int{}
+	logs := make([]*ledger.Log, 0, len(in.Logs))
+	for _, s := range in.Logs {
+		l, r := buildLog(s)
+		if r != nil {
+			return nil, nil, r.why, stats
+		}
+		logs = append(logs, l)
+	}
+	fail := func(i int, sig, detail string) { fails = append(fails, failure{sig, detail, i}) }
+
+	var prev, prevJ, prevR *ledger.ChainedLog // as written; as read back through JSON; as read back through the row
+	okJ, okR := true, true
+	for i, l := range logs {
+		spec := in.Logs[i]
+		c, p := rechain(prev, *l) // commander.chainLog: log.ChainLog(lastLog)
+		if p != "" {
+			fail(i, "chain-panic:"+cls(spec), p)
+			return
+		}
+		// the times involved satisfy the assumption of the model: ParseTime(Format(t)) = t
+		times := []ledger.Time{c.Date}
+		switch pl := c.Data.(type) {
+		case ledger.NewTransactionLogPayload:
+			times = append(times, pl.Transaction.Timestamp)
+		case ledger.RevertedTransactionLogPayload:
+			times = append(times, pl.RevertTransaction.Timestamp)
+		}
+		for _, t := range times {
+			back, err := ledger.ParseTime(timeText(t))
+			if err != nil {
+				fail(i, "time-text:accepted-timestamp-cannot-be-parsed-back", fmt.Sprintf("%q: %v", timeText(t), err))
+			} else if !sameTime(back, t) {
+				fail(i, "time-text:parse-of-format-differs", fmt.Sprintf("%q became %q", timeText(t), timeText(back)))
+			}
+		}
+
+		js, err := json.Marshal(c)
+		if err != nil {
+			fail(i, "marshal-error:"+cls(spec), err.Error())
+			return
+		}
+		jval, err := parseJSON(js)
+		if err != nil {
+			fail(i, "marshal-invalid-json:"+cls(spec), err.Error())
+			return
+		}
+		// the hash covers previous hash, type, data, date, idempotency key
+		hin, err := hashInput(prev, c)
+		if err != nil {
+			fail(i, "marshal-error:"+cls(spec), err.Error())
+			return
+		}
+		sum := sha256.Sum256(hin)
+		if !bytes.Equal(sum[:], c.Hash) {
+			fail(i, "hash-input:"+cls(spec), "the stored hash is not SHA-256 of (previous hash, entry with id 0 and hash null) as encoding/json writes them")
+		}
+		wantID := big.NewInt(0)
+		if prev != nil {
+			wantID = new(big.Int).Add(prev.ID, big.NewInt(1))
+		}
+		if c.ID == nil || c.ID.Cmp(wantID) != 0 {
+			fail(i, "chain-id:"+cls(spec), fmt.Sprintf("id %v, expected %v", c.ID, wantID))
+		}
+
+		// read back: JSON form
+		oj := readJSON(js)
+		stats["json:"+oj.kind]++
+		switch oj.kind {
+		case "panic":
+			fail(i, "readback:json:"+cls(spec)+":panic:"+panicClass(oj.msg), oj.msg)
+			okJ = false
+		case "err":
+			fail(i, "readback:json:"+cls(spec)+":error:"+errClass(oj.msg), oj.msg)
+			okJ = false
+		default:
+			if d := sameEntry(c, oj.entry); d != "" {
+				fail(i, "roundtrip:json:"+cls(spec)+":changed", d)
+			}
+			if js2, err := json.Marshal(oj.entry); err != nil || !bytes.Equal(js, js2) {
+				fail(i, "roundtrip:json:"+cls(spec)+":remarshal-differs", fmt.Sprintf("%s\n%s", js, js2))
+			}
+			if okJ {
+				re, p := rechain(prevJ, oj.entry.Log)
+				if p != "" {
+					fail(i, "rehash:json:"+cls(spec)+":panic", p)
+				} else if !bytes.Equal(re.Hash, c.Hash) || re.ID.Cmp(c.ID) != 0 {
+					fail(i, "rehash:json:"+cls(spec), fmt.Sprintf("re-chaining the entry read back gives id %v hash %x, stored id %v hash %x", re.ID, re.Hash, c.ID, c.Hash))
+				}
+			}
+			prevJ = oj.entry
+		}
+
+		// read back: stored row
+		row, dataBack, err := storeRow(c)
+		var or outcome
+		if err != nil {
+			fail(i, "store-error:"+cls(spec), err.Error())
+			or = outcome{kind: "err", msg: err.Error()}
+			okR = false
+		} else {
+			or = readRow(row)
+			stats["row:"+or.kind]++
+			switch or.kind {
+			case "panic":
+				fail(i, "readback:row:"+cls(spec)+":panic:"+panicClass(or.msg), or.msg)
+				okR = false
+			default:
+				if d := sameEntry(c, or.entry); d != "" {
+					fail(i, "roundtrip:row:"+cls(spec)+":changed", d)
+				}
+				if okR {
+					re, p := rechain(prevR, or.entry.Log)
+					if p != "" {
+						fail(i, "rehash:row:"+cls(spec)+":panic", p)
+					} else if !bytes.Equal(re.Hash, c.Hash) || re.ID.Cmp(c.ID) != 0 {
+						fail(i, "rehash:row:"+cls(spec), fmt.Sprintf("re-chaining the entry read back gives id %v hash %x, stored id %v hash %x", re.ID, re.Hash, c.ID, c.Hash))
+					}
+				}
+				prevR = or.entry
+			}
+		}
+
+		// the Coq case
+		es, unrep := coqEntry(c)
+		if unrep == "" {
+			prevH := "None"
+			if prev != nil {
+				prevH = "(Some " + coqStr(base64.StdEncoding.EncodeToString(prev.Hash)) + ")"
+			}
+			cases = append(cases, fmt.Sprintf("{| cs_prev := %s;\n   cs_entry := %s;\n   cs_json := %s;\n   cs_dec := %s;\n   cs_rowdata := %s;\n   cs_rowdec := %s;\n   cs_hashin := %s |}",
+				prevH, es, jval.coqString(), oj.coq(), dataBack.coqString(), or.coq(), coqStr(string(hin))))
+		} else {
+			cases = append(cases, "")
+		}
+		prev = c
+	}
+	return
+}
+
+func one(r *vx.Run, in input) {
+	fails, cases, rej, stats := runChain(in)
+	if rej != "" {
+		r.Count("rejected-by-ParseTime:" + rej)
+		return
+	}
+	for k, v := range stats {
+		r.Sum.Distribution[k] += v
+	}
+	reported := map[string]bool{}
+	for _, f := range fails {
+		if reported[f.sig] {
+			continue
+		}
+		reported[f.sig] = true
+		// shrink: the failing entry alone, if that fails in the same way
+		small := input{Logs: []logSpec{in.Logs[f.at]}}
+		shrunk := false
+		if len(in.Logs) > 1 {
+			fs, _, _, _ := runChain(small)
+			for _, g := range fs {
+				if g.sig == f.sig {
+					r.FailP("C13", f.sig, small, g.detail, inputSize(small))
+					shrunk = true
+					break
+				}
+			}
+		}
+		if !shrunk {
+			r.FailP("C13", f.sig, in, fmt.Sprintf("entry %d: %s", f.at, f.detail), inputSize(in))
+		}
+	}
+	r.Count(fmt.Sprintf("chain-length:%d", len(in.Logs)))
+	for i, s := range in.Logs {
+		r.Count("kind:" + cls(s))
+		if i < len(cases) && cases[i] != "" {
+			sub := input{Logs: in.Logs[:i+1]}
+			key, _ := json.Marshal(sub)
+			r.Case(cases[i], sub, string(key), true)
+		}
+	}
+}
+
+// ---- generators ----------------------------------------------------------------------------------------------------
+
+var strPool = []string{
+	"", "a", "k", "key", "value", "users:001", "world", "bank", "orders:2023:x", "USD", "EUR/2", "COIN",
+	"with space", "quote\"inside", "back\\slash", "<html>&amp;", "tab\there", "line\nbreak", "cr\rhere", "\x01\x1f", "\x7f",
+	"\b\f", "é", "日本語", "emoji😀", "\u2028sep\u2029", "Ünïcödé ключ", "null", "0", "-1", "1e3", "{\"a\":1}", "[1,2]", "a/b", "%ff", "ﬁ",
+	"targetType", "metadata", "ACCOUNT", "transaction", strings.Repeat("x", 255),
+}
+
+var addrPool = []string{"world", "bank", "users:001", "users:002", "orders:a:b", "_x", "A", "payments:0123456789"}
+var assetPool = []string{"USD", "EUR/2", "COIN", "BTC/8", "A", "X0/6"}
+
+func genStr(g *vx.Rng) string {
+	if g.Chance(3, 4) {
+		return strPool[g.Intn(len(strPool))]
+	}
+	// random valid UTF-8 without NUL (PostgreSQL rejects \u0000 in jsonb and text at insertion)
+	n := g.Intn(12)
+	var b strings.Builder
+	for i := 0; i < n; i++ {
+		switch g.Intn(6) {
+		case 0:
+			b.WriteRune(rune(1 + g.Intn(0x7f)))
+		case 1:
+			b.WriteRune(rune(0x80 + g.Intn(0x780)))
+		case 2:
+			x := rune(0x800 + g.Intn(0xF800))
+			if x >= 0xD800 && x <= 0xDFFF {
+				x = 0x2028
+			}
+			b.WriteRune(x)
+		case 3:
+			b.WriteRune(rune(0x10000 + g.Intn(0x100000)))
+		default:
+			{
+				const pool = "abcXYZ019_:\"\\<>&/ "
+				b.WriteByte(pool[g.Intn(len(pool))])
+			}
+		}
+	}
+	return b.String()
+}
+
+func genMeta(g *vx.Rng) map[string]string {
+	switch g.Intn(6) {
+	case 0:
+		return nil
+	case 1:
+		return map[string]string{}
+	}
+	m := map[string]string{}
+	n := 1 + g.Intn(4)
+	for i := 0; i < n; i++ {
+		m[genStr(g)] = genStr(g)
+	}
+	return m
+}
+
+func genAccountMeta(g *vx.Rng) map[string]map[string]string {
+	switch g.Intn(5) {
+	case 0:
+		return nil
+	case 1:
+		return map[string]map[string]string{}
+	}
+	m := map[string]map[string]string{}
+	n := 1 + g.Intn(3)
+	for i := 0; i < n; i++ {
+		k := addrPool[g.Intn(len(addrPool))]
+		if g.Chance(1, 5) {
+			k = genStr(g)
+		}
+		m[k] = genMeta(g)
+	}
+	return m
+}
+
+func pow2(n uint) *big.Int { return new(big.Int).Lsh(big.NewInt(1), n) }
+
+func genAmount(g *vx.Rng) string {
+	switch g.Intn(10) {
+	case 0:
+		return "0"
+	case 1:
+		return "1"
+	case 2:
+		return pow2(53).Add(pow2(53), big.NewInt(1)).String()
+	case 3:
+		return pow2(63).String()
+	case 4:
+		return pow2(64).String()
+	case 5:
+		return pow2(200).String()
+	case 6:
+		return new(big.Int).Sub(pow2(256), big.NewInt(1)).String()
+	case 7:
+		return "1000000000000000000000"
+	}
+	z := new(big.Int)
+	bits := 1 + g.Intn(220)
+	for i := 0; i < bits; i += 64 {
+		z.Lsh(z, 64)
+		z.Or(z, new(big.Int).SetUint64(g.U64()))
+	}
+	z.Rsh(z, uint(g.Intn(64)))
+	return z.String()
+}
+
+// transaction ids: the counter of the commander starts at 0; large values to cross 2^53, 2^63 and 2^64
+func genID(g *vx.Rng, beyond64 bool) string {
+	switch g.Intn(12) {
+	case 0:
+		return "0"
+	case 1:
+		return new(big.Int).Add(pow2(53), big.NewInt(1)).String()
+	case 2:
+		return pow2(63).String()
+	case 3:
+		return new(big.Int).Sub(pow2(64), big.NewInt(1)).String()
+	case 4:
+		if beyond64 {
+			return pow2(64).String()
+		}
+	case 5:
+		if beyond64 {
+			return new(big.Int).Add(pow2(70), big.NewInt(int64(g.Intn(1000)))).String()
+		}
+	}
+	return fmt.Sprintf("%d", g.Intn(100000))
+}
+
+var zonePool = []string{"Z", "Z", "Z", "+00:00", "-00:00", "+02:00", "-05:30", "+14:00", "-12:00", "+23:59", "-23:59", "+05:45"}
+
+// timestamps as a client may send them (RFC3339 with up to 9 fractional digits and any numeric zone)
+func genTimestamp(g *vx.Rng) string {
+	if g.Chance(1, 60) {
+		// rounds up to the year 10000
+		if g.Bool() {
+			return "9999-12-31T23:59:59.9999995Z"
+		}
+		return "9999-12-31T23:59:59.999999999" + zonePool[g.Intn(len(zonePool))]
+	}
+	switch g.Intn(14) {
+	case 0:
+		return "0000-01-01T00:00:00Z"
+	case 1:
+		return "0001-01-01T00:00:00Z"
+	case 2:
+		return "9999-12-31T23:59:59.999999Z"
+	case 3:
+		return "9999-12-31T23:59:59.9999994Z"
+	case 4:
+		return "9999-12-31T23:59:59.9999985" + zonePool[g.Intn(len(zonePool))]
+	case 6:
+		return "2024-02-29T23:59:59.9999995" + zonePool[g.Intn(len(zonePool))]
+	case 7:
+		return "0000-01-01T00:00:00+14:00"
+	case 8:
+		return "1969-12-31T23:59:59.999999499Z"
+	}
+	frac := ""
+	if nd := g.Intn(10); nd > 0 {
+		sep := "."
+		if g.Chance(1, 10) {
+			sep = ","
+		}
+		frac = sep
+		for i := 0; i < nd; i++ {
+			frac += string(rune('0' + g.Intn(10)))
+		}
+	}
+	return fmt.Sprintf("%04d-%02d-%02dT%02d:%02d:%02d%s%s", g.Intn(10000), 1+g.Intn(12), 1+g.Intn(28), g.Intn(24), g.Intn(60), g.Intn(60), frac, zonePool[g.Intn(len(zonePool))])
+}
+
+// log dates are ledger.Now(): UTC, microseconds
+func genDate(g *vx.Rng) string {
+	switch g.Intn(8) {
+	case 0:
+		return "0001-01-01T00:00:00Z"
+	case 1:
+		return "9999-12-31T23:59:59.999999Z"
+	case 2:
+		return "1970-01-01T00:00:00Z"
+	}
+	return fmt.Sprintf("%04d-%02d-%02dT%02d:%02d:%02d.%06dZ", 1990+g.Intn(60), 1+g.Intn(12), 1+g.Intn(28), g.Intn(24), g.Intn(60), g.Intn(60), g.Intn(1000000))
+}
+
+func genTx(g *vx.Rng) *txSpec {
+	t := &txSpec{Metadata: genMeta(g), Timestamp: genTimestamp(g), ID: genID(g, true), Reverted: g.Chance(1, 8)}
+	n := 1 + g.Intn(3)
+	if g.Chance(1, 20) {
+		n = 0
+	}
+	t.Postings = []postingSpec{}
+	for i := 0; i < n; i++ {
+		t.Postings = append(t.Postings, postingSpec{addrPool[g.Intn(len(addrPool))], addrPool[g.Intn(len(addrPool))], genAmount(g), assetPool[g.Intn(len(assetPool))]})
+	}
+	if g.Chance(1, 2) {
+		t.Reference = genStr(g)
+	}
+	return t
+}
+
+func genLog(g *vx.Rng) logSpec {
+	s := logSpec{Date: genDate(g)}
+	if g.Chance(1, 2) {
+		s.IK = genStr(g)
+	}
+	switch g.Intn(6) {
+	case 0:
+		s.Kind, s.Tx, s.AccountMD = "NEW", genTx(g), genAccountMeta(g)
+	case 1:
+		s.Kind, s.Tx, s.RevertedID = "REV", genTx(g), genID(g, true)
+	case 2:
+		s.Kind, s.Target, s.Account, s.Metadata = "SET", "ACCOUNT", addrPool[g.Intn(len(addrPool))], genMeta(g)
+		if g.Chance(1, 4) {
+			s.Account = genStr(g)
+		}
+	case 3:
+		s.Kind, s.Target, s.TxID, s.Metadata = "SET", "TRANSACTION", genID(g, true), genMeta(g)
+	case 4:
+		s.Kind, s.Target, s.Account, s.Key = "DEL", "ACCOUNT", addrPool[g.Intn(len(addrPool))], genStr(g)
+		if g.Chance(1, 4) {
+			s.Account = genStr(g)
+		}
+	default:
+		s.Kind, s.Target, s.TxID, s.Key = "DEL", "TRANSACTION", genID(g, true), genStr(g)
+	}
+	return s
 }
 
 func main() {
-	for _, s := range []string{"9999-12-31T23:59:59.9999996Z", "0000-01-01T00:00:00Z", "0000-01-01T00:00:00+14:00", "2023-01-01T10:00:00.1234565+02:00", "2023-01-01T10:00:00.1234564-00:00", "0001-01-01T00:00:00Z", "2023-01-01T10:00:00.12+23:59", "2023-01-01T10:00:00,12Z", "2023-01-01t10:00:00z"} {
-		t, err := ledger.ParseTime(s)
-		if err != nil {
-			fmt.Println(s, "ERR", err)
-			continue
+	r := vx.Start("C13", "logcodec")
+	r.Cases("From FL Require Import LogCodec.Model.\n", "case", 150)
+	r.Sum.Rule = "chains of logs of the 6 shapes (new transaction, reverted, set/delete metadata on account/transaction) built with the real constructors, " +
+		"chained by the real ChainLog, marshalled, stored as InsertLogs fills the row (jsonb member order), read back by json.Unmarshal and by Logs.ToCore, re-chained; " +
+		"one case per entry; all are non-trivial (each reaches HydrateLog and ComputeHash); distinct by the JSON of the chain prefix"
+	docs, replayOnly := r.Inputs()
+	for _, d := range docs {
+		var in input
+		if err := json.Unmarshal(d, &in); err == nil && len(in.Logs) > 0 {
+			one(r, in)
 		}
-		f := t.Format(ledger.DateFormat)
-		t2, err2 := ledger.ParseTime(f)
-		fmt.Println(s, "->", f, "reparse:", err2, t2.Equal(t), t2.Format(ledger.DateFormat) == f)
 	}
-	big70 := new(big.Int).Lsh(big.NewInt(1), 70)
-	tx := ledger.NewTransaction().WithPostings(ledger.NewPosting("world", "a<b>& ", "USD/2", new(big.Int).Lsh(big.NewInt(1), 200))).WithMetadata(metadata.Metadata{"k\"": "v\\", "": "é"}).WithIDUint64(3)
-	logs := []*ledger.Log{
-		ledger.NewTransactionLog(tx, map[string]metadata.Metadata{"a": {"x": "y"}, "b": nil}).WithIdempotencyKey("ik"),
-		ledger.NewRevertedTransactionLog(ledger.Now(), big.NewInt(3), tx),
-		ledger.NewSetMetadataOnAccountLog(ledger.Now(), "acc", nil),
-		ledger.NewSetMetadataOnTransactionLog(ledger.Now(), big.NewInt(5), metadata.Metadata{}),
-		ledger.NewSetMetadataOnTransactionLog(ledger.Now(), big70, metadata.Metadata{}),
-		ledger.NewDeleteMetadataLog(ledger.Now(), ledger.DeleteMetadataLogPayload{TargetType: "ACCOUNT", TargetID: "acc", Key: "k"}),
-		ledger.NewDeleteMetadataLog(ledger.Now(), ledger.DeleteMetadataLogPayload{TargetType: "TRANSACTION", TargetID: big.NewInt(1 << 60), Key: "k"}),
+	if replayOnly {
+		r.Finish()
+		return
 	}
-	var prev *ledger.ChainedLog
-	for i, l := range logs {
-		c := l.ChainLog(prev)
-		prev = c
-		js, _ := json.Marshal(c)
-		fmt.Println(i, string(js))
-		try("unmarshal", func() {
-			var rt ledger.ChainedLog
-			err := json.Unmarshal(js, &rt)
-			fmt.Printf("  unmarshal err=%v data=%#v\n", err, rt.Data)
-		})
-		try("tocore", func() {
-			data, _ := json.Marshal(c.Data)
-			row := ledgerstore.Logs{Type: c.Type.String(), Data: data, Date: c.Date, IdempotencyKey: c.IdempotencyKey, Hash: c.Hash}
-			rt := row.ToCore()
-			fmt.Printf("  tocore data=%#v\n", rt.Data)
-		})
+	// every shape once, alone and in one chain, with plain values
+	base := &txSpec{Postings: []postingSpec{{"world", "bank", "100", "USD"}}, Metadata: map[string]string{}, Timestamp: "2023-05-17T10:00:00Z", ID: "0"}
+	shapes := []logSpec{
+		{Kind: "NEW", Tx: base, AccountMD: map[string]map[string]string{}, Date: "2023-05-17T10:00:00.000001Z"},
+		{Kind: "REV", Tx: base, RevertedID: "0", Date: "2023-05-17T10:00:01Z"},
+		{Kind: "SET", Target: "ACCOUNT", Account: "bank", Metadata: map[string]string{"k": "v"}, Date: "2023-05-17T10:00:02Z"},
+		{Kind: "SET", Target: "TRANSACTION", TxID: "0", Metadata: map[string]string{"k": "v"}, Date: "2023-05-17T10:00:03Z", IK: "ik"},
+		{Kind: "DEL", Target: "ACCOUNT", Account: "bank", Key: "k", Date: "2023-05-17T10:00:04Z"},
+		{Kind: "DEL", Target: "TRANSACTION", TxID: "0", Key: "k", Date: "2023-05-17T10:00:05Z", IK: "ik2"},
 	}
+	for _, s := range shapes {
+		one(r, input{Logs: []logSpec{s}})
+	}
+	one(r, input{Logs: shapes})
+	// every pair of shapes in both orders (the previous hash enters the hash of the next)
+	for _, a := range shapes {
+		for _, b := range shapes {
+			one(r, input{Logs: []logSpec{a, b}})
+		}
+	}
+
+	g := vx.NewRng(r.Seed)
+	N := 260
+	if r.Thorough() {
+		N = 9000
+	}
+	for k := 0; k < N; k++ {
+		n := 1 + g.Intn(5)
+		if g.Chance(1, 3) {
+			n = 1
+		}
+		in := input{}
+		for i := 0; i < n; i++ {
+			in.Logs = append(in.Logs, genLog(g))
+		}
+		one(r, in)
+	}
+	r.Finish()
 }
